@@ -33,7 +33,9 @@ class C10(object):
                          'flat_block_without_simultaneous_part.cases',
                          'failed_period_tried_again_on_the_same_solver.cases',
                          'model.exogenous_redeclared_through_alternating_routes',
-                         'model.judged.with_flat_paths_of_many_digit_values_as_list_objects')
+                         'model.judged.with_flat_paths_of_many_digit_values_as_list_objects',
+                         'model.two_economies_with_the_same_sector_codes.judged',
+                         'same_text_read_again_after_the_horizon_was_set_on_the_solver.cases')
 
     def n_cases(self, tier):
         return 320 if tier == 'quick' else 30000
@@ -50,6 +52,15 @@ class C10(object):
                 case['param_paths']['TF|TaxRate'] = [rng.choice([0.2000000123, 0.123456789])] * (T_ + 4)
                 case['flat_many_digit_paths'] = True
             return case
+        if m == 12 and (idx // 16) % 2 == 1:
+            # two economies with the SAME sector codes in one model: what is exogenous in one has an initial condition (and stays
+            # endogenous / constant) in the other
+            T_ = rng.randint(2, 8)
+            return {'kind': 'two_country_model', 'maxtime': T_, 'builders': [rng.choice(['SIM', 'SIMEX1']), rng.choice(['SIM', 'SIMEX1'])],
+                    'gA': [float(rng.randint(5, 40)) for _ in range(T_ + 2)], 'gB': [float(rng.randint(5, 40)) for _ in range(T_ + 2)],
+                    'taxA': [round(rng.uniform(0.1, 0.3), 3) for _ in range(T_ + 2)], 'tax0B': round(rng.uniform(0.31, 0.4), 3),
+                    'afA': [round(rng.uniform(0.2, 0.5), 3) for _ in range(T_ + 2)], 'af0B': round(rng.uniform(0.2, 0.5), 3),
+                    'fB': float(rng.randint(10, 90)), 'by_code': rng.random() < 0.5}
         if m == 12 and (idx // 16) % 2 == 0:
             from vf.gen import modelspec as M
             return {'kind': 'spec_model', 'mspec': M.gen_spec(rng, n_zones=rng.choice([1, 2]), maxtime=rng.randint(1, 6))}
@@ -116,6 +127,8 @@ class C10(object):
                     spec['consts'].append({'name': nm, 'value': val})
             spec['case_variant_names'] = True
         via = rng.choice(['line', 'line', 'solver', 'solver_override'])
+        if m == 8:
+            via = 'solver_override'       # ... and the same text has already been read once by this solver (see the run)
         if spec['time'] is None and rng.random() < 0.3:
             spec['ics']['t'] = rng.choice([1990.0, 2000.0, -1.0, 0.5])     # initial condition on the DEFAULT time axis
         text = G.render(spec, with_params=(via == 'line'))
@@ -128,7 +141,7 @@ class C10(object):
         late = None
         if via == 'line' and maxtime >= 2 and rng.random() < 0.25:
             late = rng.randint(0, maxtime - 1)
-        case = {'kind': 'solve', 'spec': spec, 'text': text, 'late_horizon': late,
+        case = {'kind': 'solve', 'spec': spec, 'text': text, 'late_horizon': late, 'same_text_read_before_the_horizon_is_set': m == 8,
                 'via': via, 'reduction': (rng.random() < 0.5) or (zero_ic and m != 11), 'earlier': None, 'zero_ic': zero_ic}
         if via == 'line' and rng.random() < 0.35:
             # the same solver object has already parsed and solved another block with another horizon
@@ -157,6 +170,60 @@ class C10(object):
                 'builder': rng.choice(['SIM', 'SIMEX1'])}
 
     # ------------------------------------------------------------------------------------------
+    def run_two_country_model(self, case):
+        from vf import ambient
+        from sfc_models.models import Model
+        rec = monitors.Recorder()
+        T = case['maxtime']
+        big = Model()
+        bA = ambient.book_builders()[case['builders'][0]](country_code='A', model=big, use_book_exogenous=False)
+        bA.build_model()
+        bB = ambient.book_builders()[case['builders'][1]](country_code='B', model=big, use_book_exogenous=False)
+        bB.build_model()
+        cA, cB = bA.Country, bB.Country
+        cA['GOV'].SetExogenous('DEM_GOOD', list(case['gA']))
+        cB['GOV'].SetExogenous('DEM_GOOD', list(case['gB']))
+        if case['by_code']:
+            big.AddExogenous('A_TF', 'TaxRate', list(case['taxA']))
+            big.AddExogenous('A_HH', 'AlphaFin', list(case['afA']))
+            big._GenerateFullSectorCodes()
+            big.AddInitialCondition('B_TF', 'TaxRate', case['tax0B'])
+            big.AddInitialCondition('B_HH', 'AlphaFin', case['af0B'])
+            big.AddInitialCondition('B_HH', 'F', case['fB'])
+        else:
+            cA['TF'].SetExogenous('TaxRate', list(case['taxA']))
+            cA['HH'].SetExogenous('AlphaFin', list(case['afA']))
+            cB['TF'].AddInitialCondition('TaxRate', case['tax0B'])
+            cB['HH'].AddInitialCondition('AlphaFin', case['af0B'])
+            cB['HH'].AddInitialCondition('F', case['fB'])
+        big.MaxTime = T
+        big.EquationSolver.MaxIterations = 3000
+        try:
+            with contextlib.redirect_stdout(io.StringIO()):
+                big.main()
+        except Exception as e:
+            return {'verdict': 'notjudged', 'shape': 'two_country_model|' + type(e).__name__, 'obs': {'err': repr(e)[:200]}}
+        V = big.EquationSolver.TimeSeries
+        rec.count('model.judged')
+        rec.count('model.two_economies_with_the_same_sector_codes.judged')
+        for n, v in V.items():
+            rec.count('length.judged')
+            if len(v) != T + 1:
+                rec.violate('series_length_not_horizon_plus_one', {'var': n, 'len': len(v), 'horizon': T})
+                break
+        for name, supplied in (('A_GOV__DEM_GOOD', case['gA']), ('B_GOV__DEM_GOOD', case['gB']), ('A_TF__TaxRate', case['taxA']),
+                               ('A_HH__AlphaFin', case['afA'])):
+            rec.count('exo.judged')
+            if name not in V or list(V[name]) != [float(x) for x in supplied[:T + 1]]:
+                rec.violate('exogenous_not_verbatim', {'var': name, 'got': list(V.get(name, []))[:8], 'expected': supplied[:8]})
+        for name, stated in (('B_TF__TaxRate', case['tax0B']), ('B_HH__AlphaFin', case['af0B']), ('B_HH__F', case['fB'])):
+            rec.count('ic.judged')
+            if name not in V or V[name][0] != float(stated):
+                rec.violate('initial_condition_not_k0_value', {'var': name, 'stated': stated, 'got': (V.get(name) or [None])[0],
+                                                               'note': 'the same local variable of the same-coded sector in the other country is exogenous'})
+        return {'verdict': 'violated' if rec.violations else 'held', 'nontrivial': True, 'shape': 'two_country_model',
+                'counters': rec.counters, 'violations': rec.violations[:4], 'obs': {'T': T, 'builders': case['builders']}}
+
     def run_spec_model(self, case):
         """A generated model: every exogenous path the spec supplies (spending, interest and exchange rates) and every
         initial stock must come back verbatim, every series must have horizon+1 points."""
@@ -218,6 +285,8 @@ class C10(object):
     def run_case(self, case):
         if case['kind'] == 'spec_model':
             return self.run_spec_model(case)
+        if case['kind'] == 'two_country_model':
+            return self.run_two_country_model(case)
         if case['kind'] == 'reject':
             return self.run_reject(case)
         if case['kind'] == 'model':
@@ -228,6 +297,17 @@ class C10(object):
         T = spec['maxtime']
         solver = EquationSolver(run_equation_reduction=case['reduction'])
         solver.MaxIterations = 4000
+        if case.get('same_text_read_before_the_horizon_is_set'):
+            # the block is read (and, if its own horizon can be served, solved) first; THEN the caller sets the horizon on the
+            # solver and reads the same text again
+            try:
+                with contextlib.redirect_stdout(io.StringIO()):
+                    solver.ParseString(case['text'])
+                    if T % 2:
+                        solver.SolveEquation()
+            except ValueError:
+                pass
+            rec.count('same_text_read_again_after_the_horizon_was_set_on_the_solver.cases')
         if case['via'] in ('solver', 'solver_override'):
             solver.MaxTime = T
             solver.ParameterErrorTolerance = 1e-9
